@@ -51,9 +51,12 @@ Fixpoint rloop (rs : list Z) (j : nat) (c k L : Z) : outcome :=
     else rloop rest (S j) (c + 1) k (L + r)
   end.
 
-Lemma proper_eqb T : proper_table T ->
-  String.eqb T COUNT_REPS = false /\ String.eqb T "" = false.
-Proof. intros [H1 H2]. split; apply String.eqb_neq; assumption. Qed.
+Lemma proper_eqb T : proper_table T -> String.eqb T COUNT_REPS = false.
+Proof. intros H. apply String.eqb_neq; assumption. Qed.
+
+(* the reference id of the progress check *)
+Definition eff_s (a : app) (m : idm) : Z :=
+  if a_rep_count a =? 0 then start_of m - 1 else a_starting_id a.
 
 Lemma target_id_step a m r s c :
   target_id (mkApp (a_crit a) s c) (generate_ids m r) = target_id a m.
@@ -61,30 +64,33 @@ Proof. reflexivity. Qed.
 
 Lemma loop_cons_target T r rest j a m : proper_table T -> c_table (a_crit a) = T ->
   loop (r :: rest) j a m =
-  if m_last m + r =? a_starting_id a then Failed (S j) runtime_error
+  if m_last m + r =? eff_s a m then Failed (S j) runtime_error
   else if target_id a m <=? m_last m + r then Stopped (S j) (m_last m + r)
   else loop rest (S j) (mkApp (a_crit a) (m_last m + r) (a_rep_count a + 1)) (generate_ids m r).
 Proof.
-  intros HT Ha. destruct (proper_eqb T HT) as [E1 E2].
-  cbn [loop]. unfold ensure_progress, stopping_tablename, truthy. rewrite Ha, E1, E2.
-  cbn [negb]. change (m_last (generate_ids m r)) with (m_last m + r).
-  destruct (m_last m + r =? a_starting_id a) eqn:Es; [reflexivity|].
+  intros HT Ha. pose proof (proper_eqb T HT) as E1.
+  cbn [loop]. unfold ensure_progress, stopping_tablename. rewrite Ha, E1.
+  change (start_of (generate_ids m r)) with (start_of m).
+  change (m_last (generate_ids m r)) with (m_last m + r).
+  fold (eff_s a m).
+  destruct (m_last m + r =? eff_s a m) eqn:Es; [reflexivity|].
   unfold check_finished. cbn [a_crit a_starting_id a_rep_count]. rewrite Ha, E1.
   rewrite target_id_step. change (m_last (generate_ids m r)) with (m_last m + r).
   destruct (target_id a m <=? m_last m + r) eqn:Et; reflexivity.
 Qed.
 
 Lemma loop_is_tloop T rs : proper_table T -> forall j a m,
-  c_table (a_crit a) = T ->
-  loop rs j a m = tloop rs j (a_starting_id a) (m_last m) (target_id a m).
+  c_table (a_crit a) = T -> 0 <= a_rep_count a ->
+  loop rs j a m = tloop rs j (eff_s a m) (m_last m) (target_id a m).
 Proof.
   intros HT.
-  induction rs as [|r rest IH]; intros j a m Ha; [reflexivity|].
+  induction rs as [|r rest IH]; intros j a m Ha Hc; [reflexivity|].
   rewrite (loop_cons_target T) by assumption. cbn [tloop].
-  destruct (m_last m + r =? a_starting_id a) eqn:Es; [reflexivity|].
+  destruct (m_last m + r =? eff_s a m) eqn:Es; [reflexivity|].
   destruct (target_id a m <=? m_last m + r) eqn:Et; [reflexivity|].
-  rewrite IH by (cbn [a_crit]; exact Ha).
-  rewrite target_id_step. reflexivity.
+  rewrite IH; [| cbn [a_crit]; exact Ha | cbn [a_rep_count]; lia].
+  rewrite target_id_step. unfold eff_s at 1. cbn [a_rep_count a_starting_id].
+  destruct (a_rep_count a + 1 =? 0) eqn:E0; [lia|]. reflexivity.
 Qed.
 
 Lemma loop_cons_reps r rest j a m : c_table (a_crit a) = COUNT_REPS ->
@@ -93,8 +99,8 @@ Lemma loop_cons_reps r rest j a m : c_table (a_crit a) = COUNT_REPS ->
   else loop rest (S j) (mkApp (a_crit a) (a_starting_id a) (a_rep_count a + 1)) (generate_ids m r).
 Proof.
   intros Ha.
-  cbn [loop]. unfold ensure_progress, stopping_tablename, truthy. rewrite Ha.
-  rewrite String.eqb_refl. cbn [negb].
+  cbn [loop]. unfold ensure_progress, stopping_tablename. rewrite Ha.
+  rewrite String.eqb_refl.
   unfold check_finished. rewrite Ha, String.eqb_refl.
   cbn [a_crit a_rep_count]. change (m_last (generate_ids m r)) with (m_last m + r).
   destruct (c_count (a_crit a) <=? a_rep_count a + 1) eqn:Ek; reflexivity.
@@ -289,13 +295,14 @@ Qed.
 
 Lemma run_target T N tables cont rs :
   proper_table T -> In T tables ->
-  run tables (Some (mkCrit T N)) cont rs = tloop rs 0 0 (base cont) (base cont + N).
+  run tables (Some (mkCrit T N)) cont rs
+  = tloop rs 0 (base cont) (base cont) (base cont + N).
 Proof.
-  intros HT Hin. destruct (proper_eqb T HT) as [E1 E2].
+  intros HT Hin. pose proof (proper_eqb T HT) as E1.
   unfold run, interp_init, stopping_tablename, new_app. cbn [a_crit c_table].
-  rewrite E1, E2, (In_existsb _ _ Hin). cbn [negb andb].
-  rewrite (loop_is_tloop T rs HT) by reflexivity.
-  cbn [a_starting_id]. unfold target_id. cbn [a_crit c_count].
+  rewrite E1, (In_existsb _ _ Hin). cbn [negb].
+  rewrite (loop_is_tloop T rs HT) by (cbn [a_crit c_table a_rep_count]; first [reflexivity | lia]).
+  unfold eff_s, target_id, start_of. cbn [a_crit c_count a_rep_count Z.eqb].
   destruct cont as [l|]; cbn [init_idm restored_idm fresh_idm m_last m_start base];
     f_equal; lia.
 Qed.
@@ -314,7 +321,7 @@ Qed.
 
 (* repetition criterion *)
 Theorem reps_exact : forall tables k cont pre x rest,
-  Z.of_nat (length pre) + 1 = Z.max 1 k ->
+  1 <= k -> Z.of_nat (length pre) + 1 = k ->
   run tables (Some (mkCrit COUNT_REPS k)) cont (pre ++ x :: rest)
   = Stopped (length pre + 1) (base cont + zsum pre + x).
 Proof.
@@ -331,19 +338,19 @@ Qed.
 
 (* row-count criterion: the run stops exactly at the first boundary with >= N rows *)
 Theorem target_stops_at_first_boundary : forall T tables N cont pre x rest,
-  proper_table T -> In T tables -> 1 <= N -> cont_ok cont ->
+  proper_table T -> In T tables -> 1 <= N ->
   Forall (fun r => 1 <= r) pre ->
   (forall i, (i <= length pre)%nat -> zsum (firstn i pre) < N) ->
   N <= zsum pre + x ->
   run tables (Some (mkCrit T N)) cont (pre ++ x :: rest)
   = Stopped (length pre + 1) (base cont + zsum pre + x).
 Proof.
-  intros T tables N cont pre x rest HT Hin HN Hc Hp Hb Hx.
-  rewrite run_target by assumption. unfold cont_ok in Hc.
+  intros T tables N cont pre x rest HT Hin HN Hp Hb Hx.
+  rewrite run_target by assumption.
   assert (Hb' : forall i, (i <= length pre)%nat ->
                           base cont + zsum (firstn i pre) < base cont + N)
     by (intros i Hi; specialize (Hb i Hi); lia).
-  rewrite (tloop_stop pre x rest 0 0 (base cont) (base cont + N) Hc Hp Hb' ltac:(lia)).
+  rewrite (tloop_stop pre x rest 0 _ (base cont) (base cont + N) (Z.le_refl _) Hp Hb' ltac:(lia)).
   reflexivity.
 Qed.
 
@@ -363,184 +370,92 @@ Proof.
 Qed.
 
 Theorem target_error_only_without_progress : forall T tables N cont rs j e,
-  proper_table T -> In T tables -> cont_ok cont -> Forall (fun r => 0 <= r) rs ->
+  proper_table T -> In T tables ->
   run tables (Some (mkCrit T N)) cont rs = Failed j e ->
   exists n, j = S n /\ e = runtime_error /\ nth_error rs n = Some 0 /\
             forall i, (1 <= i <= n)%nat -> zsum (firstn i rs) < N.
 Proof.
-  intros T tables N cont rs j e HT Hin Hc Hp H.
-  rewrite run_target in H by assumption. unfold cont_ok in Hc.
+  intros T tables N cont rs j e HT Hin H.
+  rewrite run_target in H by assumption.
   apply tloop_failed_inv in H. destruct H as (n & x & Hj & Hn & He & H0 & H1 & Hb).
   exists n. cbn [Nat.add] in Hj. splits; try assumption.
-  - assert (Hx : 0 <= x).
-    { apply nth_error_In in Hn. rewrite Forall_forall in Hp. apply Hp. exact Hn. }
-    destruct n as [|n].
+  - destruct n as [|n].
     + specialize (H0 eq_refl). assert (x = 0) by lia. subst. assumption.
     + rewrite H1 in Hn by lia. assumption.
   - intros i Hi. specialize (Hb i Hi). lia.
 Qed.
 
 Theorem target_terminates : forall T tables N cont rs,
-  proper_table T -> In T tables -> 1 <= N -> cont_ok cont ->
+  proper_table T -> In T tables -> 1 <= N ->
   Forall (fun r => 0 <= r) rs ->
-  Z.of_nat (length rs) >= N + (match cont with None => 0 | Some _ => 1 end) ->
+  Z.of_nat (length rs) >= N ->
   forall n, run tables (Some (mkCrit T N)) cont rs <> Exhausted n.
 Proof.
-  intros T tables N cont rs HT Hin HN Hc Hp Hlen n.
-  rewrite run_target by assumption. unfold cont_ok in Hc.
-  destruct cont as [l|]; cbn [base] in *.
-  - apply tloop_term; try assumption. lia.
-  - apply tloop_strict_term; try assumption. lia.
+  intros T tables N cont rs HT Hin HN Hp Hlen n.
+  rewrite run_target by assumption.
+  apply tloop_strict_term; try assumption. lia.
 Qed.
 
 Theorem target_progress_bound : forall T tables N cont rs,
-  proper_table T -> In T tables -> 1 <= N -> cont_ok cont ->
+  proper_table T -> In T tables -> 1 <= N ->
   Forall (fun r => 1 <= r) rs -> Z.of_nat (length rs) >= N ->
   exists j, (1 <= j)%nat /\ Z.of_nat j <= N /\
     run tables (Some (mkCrit T N)) cont rs = Stopped j (base cont + zsum (firstn j rs)) /\
     N <= zsum (firstn j rs) /\
     forall i, (1 <= i < j)%nat -> zsum (firstn i rs) < N.
 Proof.
-  intros T tables N cont rs HT Hin HN Hc Hp Hlen.
-  pose proof (run_target T N tables cont rs HT Hin) as Hrun. unfold cont_ok in Hc.
-  destruct (tloop_progress rs 0 0 (base cont) (base cont + N)) as (n & L' & Hn & Hb);
+  intros T tables N cont rs HT Hin HN Hp Hlen.
+  pose proof (run_target T N tables cont rs HT Hin) as Hrun.
+  destruct (tloop_progress rs 0 (base cont) (base cont) (base cont + N)) as (n & L' & Hn & Hb);
     [lia | assumption | lia |].
   rewrite <- Hrun in Hn. cbn [Nat.add] in Hn.
   destruct (target_stop_is_first_boundary _ _ _ _ _ _ _ HT Hin Hn) as (H1 & H2 & H3 & H4).
   exists n. subst L'. splits; try lia; assumption.
 Qed.
 
-Theorem no_progress_fresh : forall T tables N pre rest,
+(* every no-progress iteration, fresh or continued, first or later *)
+Theorem no_progress : forall T tables N cont pre rest,
   proper_table T -> In T tables -> 1 <= N ->
   Forall (fun r => 1 <= r) pre ->
   (forall i, (i <= length pre)%nat -> zsum (firstn i pre) < N) ->
-  run tables (Some (mkCrit T N)) None (pre ++ 0 :: rest)
+  run tables (Some (mkCrit T N)) cont (pre ++ 0 :: rest)
   = Failed (length pre + 1) runtime_error.
 Proof.
-  intros T tables N pre rest HT Hin HN Hp Hb.
-  rewrite run_target by assumption. cbn [base].
-  assert (Hb' : forall i, (i <= length pre)%nat -> 0 + zsum (firstn i pre) < 0 + N)
+  intros T tables N cont pre rest HT Hin HN Hp Hb.
+  rewrite run_target by assumption.
+  assert (Hb' : forall i, (i <= length pre)%nat ->
+                          base cont + zsum (firstn i pre) < base cont + N)
     by (intros i Hi; specialize (Hb i Hi); lia).
-  rewrite (tloop_fail pre rest 0 0 0 (0 + N) (Z.le_refl _) (fun _ => eq_refl) Hp Hb').
+  rewrite (tloop_fail pre rest 0 _ _ _ (Z.le_refl _) (fun _ => eq_refl) Hp Hb').
   reflexivity.
 Qed.
 
-(* continued run: every no-progress iteration after the first one is detected *)
-Theorem no_progress_continued_partial : forall T tables N last0 r0 mid rest,
-  proper_table T -> In T tables -> 1 <= N -> 0 <= last0 -> 0 <= r0 ->
-  (r0 = 0 -> 0 < last0) ->
-  Forall (fun r => 1 <= r) mid ->
-  (forall i, (i <= length mid)%nat -> r0 + zsum (firstn i mid) < N) ->
-  run tables (Some (mkCrit T N)) (Some last0) (r0 :: mid ++ 0 :: rest)
-  = Failed (length mid + 2) runtime_error.
-Proof.
-  intros T tables N last0 r0 mid rest HT Hin HN Hl Hr0 Hk Hp Hb.
-  rewrite run_target by assumption. cbn [base tloop].
-  pose proof (Hb 0%nat (Nat.le_0_l _)) as H0. cbn [firstn] in H0. rewrite zsum_nil in H0.
-  destruct (last0 + r0 =? 0) eqn:E1; [lia|].
-  destruct (last0 + N <=? last0 + r0) eqn:E2; [lia|].
-  assert (Hb' : forall i, (i <= length mid)%nat ->
-                          last0 + r0 + zsum (firstn i mid) < last0 + N)
-    by (intros i Hi; specialize (Hb i Hi); lia).
-  rewrite (tloop_fail mid rest 1 _ _ _ (Z.le_refl _) (fun _ => eq_refl) Hp Hb').
-  f_equal. lia.
-Qed.
-
-(* ... but a no-progress FIRST iteration of a continued run is not (known finding K7) *)
-Theorem refuted_first_continued_iteration :
-  ~ (forall T tables N last0 pre rest,
-       proper_table T -> In T tables -> 1 <= N -> 0 <= last0 ->
-       Forall (fun r => 1 <= r) pre ->
-       (forall i, (i <= length pre)%nat -> zsum (firstn i pre) < N) ->
-       run tables (Some (mkCrit T N)) (Some last0) (pre ++ 0 :: rest)
-       = Failed (length pre + 1) runtime_error).
-Proof.
-  intros H.
-  specialize (H "T"%string ["T"%string] 2 3 [] [1; 1]).
-  assert (Hp : proper_table "T").
-  { split; intros E; discriminate E. }
-  specialize (H Hp (or_introl eq_refl) ltac:(lia) ltac:(lia) (Forall_nil _)).
-  assert (Hb : forall i, (i <= length (@nil Z))%nat -> zsum (firstn i []) < 2).
-  { intros i _. destruct i; cbn [firstn]; rewrite zsum_nil; lia. }
-  specialize (H Hb). vm_compute in H. discriminate H.
-Qed.
-
 Theorem relative_after_continuation : forall T tables N last0 rs,
-  proper_table T -> In T tables -> 0 <= last0 ->
-  (match rs with [] => True | r0 :: _ => 1 <= r0 \/ last0 = 0 end) ->
+  proper_table T -> In T tables ->
   run tables (Some (mkCrit T N)) (Some last0) rs
   = shift_outcome last0 (run tables (Some (mkCrit T N)) None rs).
 Proof.
-  intros T tables N last0 rs HT Hin Hl H0.
+  intros T tables N last0 rs HT Hin.
   rewrite !run_target by assumption. cbn [base].
-  destruct rs as [|r0 rest]; [reflexivity|].
-  destruct H0 as [H0|H0].
-  - cbn [tloop].
-    destruct (0 + r0 =? 0) eqn:E1; [lia|].
-    destruct (last0 + r0 =? 0) eqn:E1'; [lia|].
-    destruct (0 + N <=? 0 + r0) eqn:E2.
-    + destruct (last0 + N <=? last0 + r0) eqn:E2'; [|lia].
-      cbn [shift_outcome]. f_equal. lia.
-    + destruct (last0 + N <=? last0 + r0) eqn:E2'; [lia|].
-      rewrite <- tloop_shift. f_equal; lia.
-  - subst last0.
-    replace (tloop (r0 :: rest) 0 0 0 (0 + N))
-      with (tloop (r0 :: rest) 0 (0 + 0) (0 + 0) (0 + N + 0)) at 1 by (f_equal; lia).
-    apply tloop_shift.
+  rewrite <- tloop_shift. f_equal; lia.
 Qed.
 
 Theorem unknown_table_rejected : forall T tables N cont rs,
   proper_table T -> ~ In T tables ->
   exists kind, run tables (Some (mkCrit T N)) cont rs = Failed 0 (DGE kind).
 Proof.
-  intros T tables N cont rs HT Hin. destruct (proper_eqb T HT) as [E1 E2].
+  intros T tables N cont rs HT Hin. pose proof (proper_eqb T HT) as E1.
   unfold run, interp_init, stopping_tablename, new_app. cbn [a_crit c_table].
-  rewrite E1, E2, (notIn_existsb _ _ Hin). cbn [negb andb].
+  rewrite E1, (notIn_existsb _ _ Hin). cbn [negb].
   eexists. reflexivity.
 Qed.
 
-(* The empty table name escapes both the unknown-table test and the progress check (both test
-   the truthiness of the name), and no recipe can create rows of a table named "": the run
-   never ends.  Known finding K10. *)
-Lemma loop_cons_empty r rest j a m : c_table (a_crit a) = ""%string ->
-  loop (r :: rest) j a m =
-  if target_id a m <=? m_last m + r then Stopped (S j) (m_last m + r)
-  else loop rest (S j) (mkApp (a_crit a) (a_starting_id a) (a_rep_count a + 1)) (generate_ids m r).
+Theorem empty_table_name_rejected : forall tables N cont rs,
+  ~ In ""%string tables ->
+  exists kind, run tables (Some (mkCrit "" N)) cont rs = Failed 0 (DGE kind).
 Proof.
-  intros Ha.
-  assert (E1 : String.eqb "" COUNT_REPS = false) by reflexivity.
-  assert (E2 : String.eqb "" "" = true) by reflexivity.
-  cbn [loop]. unfold ensure_progress, stopping_tablename, truthy. rewrite Ha, E1, E2.
-  cbn [negb].
-  unfold check_finished. rewrite Ha, E1.
-  change (target_id a (generate_ids m r)) with (target_id a m).
-  change (m_last (generate_ids m r)) with (m_last m + r).
-  destruct (target_id a m <=? m_last m + r) eqn:Et; reflexivity.
-Qed.
-
-Lemma empty_name_loop : forall n j a m,
-  c_table (a_crit a) = ""%string -> m_last m < target_id a m ->
-  loop (repeat 0 n) j a m = Exhausted (j + n).
-Proof.
-  induction n as [|n IH]; intros j a m Ha Hlt; cbn [repeat].
-  - cbn [loop]. f_equal. lia.
-  - rewrite loop_cons_empty by assumption.
-    destruct (target_id a m <=? m_last m + 0) eqn:E; [lia|].
-    rewrite IH.
-    + f_equal. lia.
-    + cbn [a_crit]. exact Ha.
-    + rewrite target_id_step. cbn [generate_ids m_last]. lia.
-Qed.
-
-Theorem refuted_empty_table_name_never_ends : forall tables N cont n,
-  1 <= N ->
-  run tables (Some (mkCrit "" N)) cont (repeat 0 n) = Exhausted n.
-Proof.
-  intros tables N cont n HN.
-  unfold run, interp_init, stopping_tablename, new_app. cbn [a_crit c_table String.eqb negb andb].
-  rewrite empty_name_loop; [reflexivity | reflexivity |].
-  unfold target_id. cbn [a_crit c_count].
-  destruct cont as [l|]; cbn [init_idm restored_idm fresh_idm m_last m_start]; lia.
+  intros. apply unknown_table_rejected; [|assumption].
+  intros E. discriminate E.
 Qed.
 
 (* ------------------------------------------------------------------ infinite sequences *)
@@ -563,7 +478,7 @@ Proof.
 Qed.
 
 Theorem target_first_boundary_stream : forall T tables N cont (r : nat -> Z) fuel,
-  proper_table T -> In T tables -> 1 <= N -> cont_ok cont ->
+  proper_table T -> In T tables -> 1 <= N ->
   (forall j, 1 <= r j) -> Z.of_nat fuel >= N ->
   exists j, (1 <= j)%nat /\ Z.of_nat j <= N /\
     run tables (Some (mkCrit T N)) cont (prefix r fuel)
@@ -571,8 +486,8 @@ Theorem target_first_boundary_stream : forall T tables N cont (r : nat -> Z) fue
     N <= zsum (prefix r j) /\
     forall i, (1 <= i < j)%nat -> zsum (prefix r i) < N.
 Proof.
-  intros T tables N cont r fuel HT Hin HN Hc Hr Hf.
-  destruct (target_progress_bound T tables N cont (prefix r fuel) HT Hin HN Hc)
+  intros T tables N cont r fuel HT Hin HN Hr Hf.
+  destruct (target_progress_bound T tables N cont (prefix r fuel) HT Hin HN)
     as (j & H1 & H2 & H3 & H4 & H5).
   - apply prefix_Forall. exact Hr.
   - rewrite prefix_length. exact Hf.
